@@ -743,13 +743,21 @@ def gen_syn(job):
             return "k~order"
         return "k" + (">m" if k.bit_length() > m else "")
 
-    # every (point, k), 0 <= k <= #E+1, for the natural m and each padded m
+    # every (point, k), 0 <= k <= #E+1, for the natural m and each padded m; the stated domain is
+    # "k <= n, bit length <= curve size", so beyond n+1 only scalars that fit the declared m are used
+    def in_domain(k, m):
+        return k <= n + 1 or k.bit_length() <= m
+
     for m in pads:
         for i in range(N):
             for k in range(0, kmax + 1):
+                if not in_domain(k, m):
+                    continue
                 emit(OP_UNK, m, 0, rep(i, (i + k) % N if k % 2 else 0), rep(0), k, 0, expo(mult[i][k]),
                      "O" if i == 0 else ("P" + (",y=0" if pts[i][1] == 0 else "")), scl(k, m))
         for k in range(0, kmax + 1):
+            if not in_domain(k, m):
+                continue
             emit(OP_BP, m, 0, rep(0), rep(0), k, 0, expo(mult[gi][k]), "G", scl(k, m))
         if m > m0:
             # scalars that use the whole declared width (table entries beyond the first few)
@@ -762,10 +770,9 @@ def gen_syn(job):
 
     # twin multiplication: every A with B in a set of relations x scalar grid
     grid = []
-    for k in (0, 1, 2, 3, n - 1, n, n + 1, N, (n + 1) // 2, 5):
+    for k in ((0, 1, 2, n - 1, n, n + 1) if tier == "quick" else (0, 1, 2, 3, n - 1, n, n + 1, N, (n + 1) // 2, 5)):
         if k not in grid and 0 <= k <= kmax:
             grid.append(k)
-    grid = grid[:7] if tier == "quick" else grid
     for m in pads:
         sub = (m != m0)
         for i in range(N):
@@ -778,6 +785,8 @@ def gen_syn(job):
                     for k2 in grid:
                         if sub and (i + ri + k1 + 3 * k2) % 8:
                             continue
+                        if not (in_domain(k1, m) and in_domain(k2, m)):
+                            continue
                         A, B = rep(i, 1), rep(j, (j + 2) % N)
                         if al:
                             B = A
@@ -786,6 +795,8 @@ def gen_syn(job):
             for k1 in grid:
                 for k2 in grid:
                     if sub and (i + k1 + 3 * k2) % 4:
+                        continue
+                    if not (in_domain(k1, m) and in_domain(k2, m)):
                         continue
                     e = addt[mult[gi][k1]][mult[i][k2]]
                     rel = "B==O" if i == 0 else ("B==G" if i == gi else ("B==-G" if i == negt[gi] else "B"))
@@ -804,7 +815,7 @@ def gen_syn(job):
             "G": list(G), "points_with_y=0": sum(1 for P in pts[1:] if P[1] == 0),
             "points_with_x=0": sum(1 for P in pts[1:] if P[0] == 0), "declared_m": pads,
             "enumerated": "every ordered pair (P,Q) incl. infinity for add and sub (%d pairs each), every point as "
-                          "same-object operand, every (P,k) with 0<=k<=#E+1 for unknown-point mult for each declared m, "
+                          "same-object operand, every (P,k) with 0<=k<=#E+1 (k<=n+1 or bitlen(k)<=m) for unknown-point mult for each declared m, "
                           "every k in that range for base-point mult, twin mult for every A x 7 operand relations x "
                           "%dx%d scalar grid (natural m)" % (N * N, len(grid), len(grid))}
     return {"kind": "syn", "name": c.name, "bits": m0, "n_bits": n.bit_length(), "m": m0, "cases": cases, "desc": desc,
@@ -862,18 +873,22 @@ def _fmt_obs(o):
     return d
 
 
-def _extra_marks(case, group):
-    """key suffixes that separate distinct root causes: scalar wider than the declared curve size,
-    synthetic curve declared with m wider than p"""
+def _extra_marks(case, group, info):
+    """Key suffixes that keep distinct root causes apart.  They are emitted only where the algorithm on
+    the entry point's path is sensitive to them: a table of precomputed doubles has one entry per curve
+    bit (scalars longer than m bits), the joint-sparse-form recoding reads the low digit of both scalars
+    (zero scalars).  Everything else about the case is in the witness, not in the key."""
+    op = case[0]
     d = decode_body(case[1])
     m = group["m"] if d["curve"].get("m") is None else d["curve"]["m"]
     s = ""
-    if case[0] in (OP_UNK, OP_BP, OP_TWIN, OP_TWINBP) and max(d["k1_bits"], d["k2_bits"]) > m:
+    pre = "BIN_PRECALC_DBL"
+    uses_pre = ((op == OP_BP and info.fxp == pre) or (op == OP_UNK and info.unk == pre) or
+                (op == OP_TWINBP and info.twin == "FXP_UNKPT" and pre in (info.fxp, info.unk)))
+    if uses_pre and max(d["k1_bits"], d["k2_bits"]) > m:
         s += ",kbits>m"
-    if case[0] in (OP_TWIN, OP_TWINBP) and min(d["k1_bits"], d["k2_bits"]) == 0:
+    if op in (OP_TWIN, OP_TWINBP) and info.twin == "JOINT" and min(d["k1_bits"], d["k2_bits"]) == 0:
         s += ",zero-scalar"
-    if d["curve"].get("m") is not None and d["curve"]["m"] > group["m"]:
-        s += ",m>|p|"
     return s
 
 
@@ -899,7 +914,7 @@ def judge(part, cfg, info, san, case, group, junk, obs):
                                        _witness(cfg, info, san, case, group, junk, _fmt_obs(o))))
         return good
     if o["rc"] != 0:
-        key = _mkey("oracle", op, "rc-nonzero", fam, _extra_marks(case, group))
+        key = _mkey("oracle", op, "rc-nonzero", fam, _extra_marks(case, group, info))
         part["violations"].append((key, _witness(cfg, info, san, case, group, junk, _fmt_obs(o),
                                                  "operands in domain but the entry point refused (rc=%d)" % o["rc"])))
         return False
@@ -909,7 +924,7 @@ def judge(part, cfg, info, san, case, group, junk, obs):
     note = None
     if o["point"] not in (None, "none"):
         note = "observed point is finite"
-    key = _mkey("oracle", op, "wrong-point", fam, _extra_marks(case, group))
+    key = _mkey("oracle", op, "wrong-point", fam, _extra_marks(case, group, info))
     part["violations"].append((key, _witness(cfg, info, san, case, group, junk, _fmt_obs(o), note)))
     return False
 
@@ -949,7 +964,7 @@ def select_cases(g, info, cfg_i):
     if g["kind"] == "syn":
         if g["big"]:
             natural8 = info.digit_bits == 8 and g["m"] == 8
-            turn = (cfg_i + g["sid"]) % (4 if tier == "quick" else 6) == 0
+            turn = (cfg_i + g["sid"]) % (8 if tier == "quick" else 6) == 0
             if not (natural8 or turn):
                 return [], None
         pad = info.digit_bits if info.digit_bits > g["m"] else g["m"]
@@ -1051,12 +1066,12 @@ def run_job(job):
                 if isinstance(o, Crash):
                     ok = False
                     key = _mkey("plain", op, o.kind + ("-sig%d" % -o.returncode if o.kind == "signal" and o.returncode else ""),
-                                fam, _extra_marks(cs, g))
+                                fam, _extra_marks(cs, g, info))
                     part["violations"].append((key, _witness(cfg, info, "plain", cs, g, junk, _fmt_obs(o),
                                                              "plain build produced no result", o.report)))
             if a is not None and b is not None and not isinstance(a, Crash) and not isinstance(b, Crash) and a != b:
                 ok = False
-                key = _mkey("oracle", op, "depends-on-stale-memory", fam, _extra_marks(cs, g))
+                key = _mkey("oracle", op, "depends-on-stale-memory", fam, _extra_marks(cs, g, info))
                 part["violations"].append((key, _witness(
                     cfg, info, "plain", cs, g, JUNK_A, {"junk_0xa5": _fmt_obs(parse_obs(a)), "junk_0x3c": _fmt_obs(parse_obs(b))},
                     "same case, different junk in uninitialised curve/operand/stack memory, different observation")))
@@ -1075,20 +1090,20 @@ def run_job(job):
                     if mm:
                         det = mm.group(1)
                     if o.kind == "asan" and det in OOB_KINDS:
-                        key = _mkey("asan", op, det, fam, _extra_marks(cs, g))
+                        key = _mkey("asan", op, det, fam, _extra_marks(cs, g, info))
                         part["violations"].append((key, _witness(
                             cfg, info, san, cs, g, JUNK_A, _fmt_obs(o),
                             "out-of-bounds access beyond an object in a selectable configuration; plain-build verdict "
                             "for the same case: %s" % ("right" if ok else "wrong/crash"), o.report)))
                     elif o.kind == "msan":
-                        key = _mkey("msan", op, "use-of-uninitialized-value", fam, _extra_marks(cs, g))
+                        key = _mkey("msan", op, "use-of-uninitialized-value", fam, _extra_marks(cs, g, info))
                         if ok:
                             k2 = "msan:" + common.crash_key(o, ENTRY[op])
                             part["observations"][k2] = part["observations"].get(k2, 0) + 1
                         else:
                             part["violations"].append((key, _witness(cfg, info, san, cs, g, JUNK_A, _fmt_obs(o), None, o.report)))
                     elif o.kind == "hang":
-                        key = _mkey(san, op, "hang", fam, _extra_marks(cs, g))
+                        key = _mkey(san, op, "hang", fam, _extra_marks(cs, g, info))
                         part["violations"].append((key, _witness(cfg, info, san, cs, g, JUNK_A, _fmt_obs(o), None, o.report)))
                     else:
                         k2 = common.crash_key(o, ENTRY[op])
@@ -1194,7 +1209,7 @@ def run(tier):
         "against published P-256/secp256k1 multiples and by re-validating all 32 table entries)",
         "operands are sized EC_CURVE_CALC_BITS_DBL(curve) as ecdsa.h and ec_self_test do",
         "synthetic curves are loaded through ecdsa_curve_from_str with m >= bitlen(p) (the built-in table itself has "
-        "m = bitlen(p)+1 for one entry); keys of alarms that need m > bitlen(p) carry ',m>|p|'",
+        "m = bitlen(p)+1 for one entry); such cases carry '@m>|p|' in their class",
         "configurations are a covering sample of the macro space, not the full product",
     ]
     report.extra["configurations_run"] = {c["name"]: _INFOS[c["name"]].as_dict() for c in _CFGS}
